@@ -193,6 +193,11 @@ def build_batch(fam, cfg, spec):
         traces[0, 0] = 1
     elif kind == 'traces_str':
         traces = np.array([['a'] * T] * n)
+    elif kind == 'traces_str_late':     # numeric strings, the unconvertible one beyond row 8192 of a long batch
+        n2 = 8200
+        traces = np.array([[str(int(v)) for v in row] for row in rs.randint(1, 9, (n2, T))])
+        traces[-1, -1] = 'a'
+        data = good_data(fam, cfg, rs, n2, W, True)
     elif kind == 'traces_f16':
         traces = traces.astype('float16')
     elif kind == 'traces_f64':
@@ -212,6 +217,16 @@ def build_batch(fam, cfg, spec):
             traces = rs.randint(2 ** 61, 2 ** 62, (n, T)).astype('int64')
     elif kind == 'huge_data':           # CPA only: float data whose squares overflow float32
         data = rs.uniform(1e19, 1e20, (n, W)).astype('float32')
+    elif kind == 'sub_matrix_traces':   # ndarray subclasses: handled by update as their plain-array content (D18)
+        traces = np.matrix(traces)
+    elif kind == 'sub_matrix_data':
+        data = np.matrix(data)
+    elif kind == 'sub_matrix_both':
+        traces, data = np.matrix(traces), np.matrix(data)
+    elif kind == 'sub_trivial':
+        traces, data = traces.view(_TrivialArray), data.view(_TrivialArray)
+    elif kind == 'sub_masked':
+        traces, data = np.ma.masked_array(traces), np.ma.masked_array(data)
     elif kind == 'loud_good':       # an ordinary batch with the loud values (marked batches of a run)
         pass
     else:
@@ -223,7 +238,18 @@ DK = {'uint8': 'DUint8', 'uint16': 'DUintSmall', 'uint32': 'DUintSmall', 'uint64
       'int32': 'DIntSmall', 'int64': 'DInt64', 'bool': 'DBool', 'float16': 'DFloat', 'float32': 'DFloat', 'float64': 'DFloat'}
 
 
+class _TrivialArray(np.ndarray):
+    pass
+
+
+SUB_KINDS = ['sub_matrix_traces', 'sub_matrix_data', 'sub_matrix_both', 'sub_trivial', 'sub_masked']
+
+
 def facts_of(traces, data, env, spec):
+    if isinstance(traces, np.ndarray):
+        traces = np.asarray(traces)
+    if isinstance(data, np.ndarray):
+        data = np.asarray(data)
     f = {'id': spec['id'], 'tr_array': isinstance(traces, np.ndarray), 'da_array': isinstance(data, np.ndarray), 'n': spec['n'], 'nd': spec['n'],
          'tdim': 2, 'tlen': spec['T'], 'words': spec['W'], 'dmax': 0, 'dmin': 0, 'dkind': 'DUint8', 'tkind': 'TNum', 'const': False,
          'mem_ok': env['mem_ok'], 'alloc_ok': True, 'user': env['user']}
@@ -349,9 +375,11 @@ def make_object(fam, cfg, via):
             for i, g in enumerate(guesses):
                 out[:, i, :] = data ^ g
             return out
+        import functools
+        disc = functools.partial(scared.maxabs)        # a callable without __name__ (str(attack) would fail on it)
         if fam == 'cpa':
-            return scared.CPAAttack(selection_function=asf, model=scared.Value(), discriminant=scared.maxabs, convergence_step=cfg['step'])
-        return scared.DPAAttack(selection_function=asf, model=scared.Monobit(0), discriminant=scared.maxabs, convergence_step=cfg['step'])
+            return scared.CPAAttack(selection_function=asf, model=scared.Value(), discriminant=disc, convergence_step=cfg['step'])
+        return scared.DPAAttack(selection_function=asf, model=scared.Monobit(0), discriminant=disc, convergence_step=cfg['step'])
     # analysis objects: the selection function hands the `data` metadata over unchanged, the model is Value / Monobit(0)
     ctl = {'sf_raise': False, 'model_raise': False}
 
@@ -632,6 +660,8 @@ FIRST_KINDS = {   # kinds that are refused as a first call (or at any position),
     'part': ['auto_gt255', 'auto_neg', 'data_float', 'data_int64', 'data_uint64', 'mem', 'traces_str', 'traces_f16'],
     'mia': ['mia_const'],
     'template_build': ['words'],
+    'template_match': ['mem'],
+    'template_dpa_match': ['mem'],
     'cpa': ['mem', 'traces_str'],
 }
 LATER_KINDS = {   # kinds refused after an accepted batch
@@ -745,6 +775,10 @@ class UpdKind(Kind):
         for fam in ('cpa', 'cpa_alt', 'dpa'):
             yield hist(fam, 5, 3, [('good', 10), ('traces_3d', 4)], 'D12_%s_3d_traces_after_accepted_batch' % fam)
         yield hist('dpa', 5, 3, [('good', 10), ('traces_str', 4)], 'D13_dpa_unconvertible_traces_after_accepted_batch')
+        for fam in ('cpa', 'dpa'):
+            yield hist(fam, 4, 2, [('good', 10), ('traces_str_late', 4), ('good', 6)], 'long_batch_unconvertible_late_row_%s' % fam)
+        for fam in ('cpa', 'dpa'):
+            yield hist(fam, 5, 3, [('good', 10), ('sub_matrix_traces', 4), ('good', 6)], 'D18_%s_matrix_traces_after_accepted_batch' % fam)
 
     def gen(self, rng, tier):
         vseed = rng.randrange(1, 10 ** 6)
@@ -783,6 +817,10 @@ class UpdKind(Kind):
                 odd = [k for k in odd if k != 'words1']
             if odd and self.via == 'update':
                 yield self.case(fam, cfg, history_with_insertions(fam, vseed, T, W, goods[:2], {1: odd, 2: laters[:2]}, op=self.via))
+            # --- ndarray subclasses (np.matrix, a trivial subclass, masked arrays without masked values): ACCEPTED as their plain content
+            for i in range(0, len(SUB_KINDS), 2):
+                ks = SUB_KINDS[i:i + 2]
+                yield self.case(fam, cfg, history_with_insertions(fam, vseed, T, W, [10, 7], {0: ks[:1], 1: ks + ['tlen'], 2: ['tlen_short'] + ks[-1:]}, op=self.via))
             # --- extreme magnitudes (accepted by the code: the model says accepted; a version refusing them half-way is flagged)
             huge = ['huge_f32'] + (['huge_f64', 'huge_i64'] if (not heavy or not quick or fam in ('template_match', 'template_dpa_match')) else [])
             if fam in ('cpa', 'cpa_alt') and self.via == 'update':
@@ -885,6 +923,8 @@ class UpdKind(Kind):
         if case.get('label'):
             t.append(case['label'])
         ks = self._bad_kinds(case, obs)
+        if any(k.startswith('sub_') for k in ks if isinstance(k, str)):
+            t.append('ndarray_subclass_refused_after_inplace')
         if 'traces_3d' in ks and case['family'] in ('cpa', 'cpa_alt', 'dpa'):
             t.append('update_3d_traces_partial_inplace')
         if 'traces_str' in ks and case['family'] == 'dpa':
